@@ -910,3 +910,78 @@ Proof.
   apply walk_fuel_irrelevant; lia.
 Qed.
 End Fuel.
+
+(* ---- obstacles and their removal: events of the environment that stay clear of recorded files --------------- *)
+Section Obstacles.
+Variable cfg : config.
+Variable U : universe.
+Hypothesis Hcwd : names_ok (c_cwd cfg).
+
+(* an event at or above no recorded path *)
+Definition clear_of_records (st : state) (o : op) : Prop :=
+  match o with
+  | MkDir p | MkFile p _ | Remove p => forall q ns, reg_get (s_reg st) q = Some ns -> is_prefix_path p q = false
+  | _ => True
+  end.
+
+Lemma is_prefix_refl p : is_prefix_path p p = true.
+Proof. unfold is_prefix_path. induction p as [|x p IH]; cbn [is_prefix_of]; [reflexivity | rewrite str_eqb_refl, IH; reflexivity]. Qed.
+
+Lemma fs_get_filter fs (f : apath -> bool) q : f q = true -> fs_get (filter (fun e => f (fst e)) fs) q = fs_get fs q.
+Proof.
+  intros Hq. induction fs as [|[k n] r IH]; [reflexivity|]. cbn [filter fst]. destruct (f k) eqn:Ek; cbn [fs_get].
+  - rewrite IH. reflexivity.
+  - destruct (list_str_eqb q k) eqn:E; [apply list_str_eqb_spec in E; subst k; congruence | exact IH].
+Qed.
+
+Lemma env_op_views st o st' r : (match o with MkDir _ | MkFile _ _ | Remove _ => True | _ => False end) -> clear_of_records st o ->
+  ExportSM.step cfg U st o = (st', r) ->
+  s_reg st' = s_reg st /\ (Inv st -> Inv st') /\ forall q, view st' q = view st q.
+Proof.
+  intros Hk Hc H. destruct o as [i|i|i dir| |p|p c|p]; try contradiction; cbn [ExportSM.step] in H; inversion H; subst; clear H; cbn [s_reg s_fs clear_of_records] in *.
+  - split; [reflexivity|]. split.
+    + intros HI q ns Hq. cbn [s_reg s_fs] in *. destruct (HI q ns Hq) as [Hne (c & Hf)]. split; [exact Hne|]. exists c. rewrite fs_get_set_other; [exact Hf|].
+      intros ->. pose proof (Hc q ns Hq) as Hp. rewrite is_prefix_refl in Hp. discriminate.
+    + intros q. unfold view, content_at. cbn [s_reg s_fs]. destruct (reg_get (s_reg st) q) as [ns|] eqn:Hq; [|reflexivity].
+      rewrite fs_get_set_other; [reflexivity|]. intros ->. pose proof (Hc q ns Hq) as Hp. rewrite is_prefix_refl in Hp. discriminate.
+  - split; [reflexivity|]. split.
+    + intros HI q ns Hq. cbn [s_reg s_fs] in *. destruct (HI q ns Hq) as [Hne (c0 & Hf)]. split; [exact Hne|]. exists c0. rewrite fs_get_set_other; [exact Hf|].
+      intros ->. pose proof (Hc q ns Hq) as Hp. rewrite is_prefix_refl in Hp. discriminate.
+    + intros q. unfold view, content_at. cbn [s_reg s_fs]. destruct (reg_get (s_reg st) q) as [ns|] eqn:Hq; [|reflexivity].
+      rewrite fs_get_set_other; [reflexivity|]. intros ->. pose proof (Hc q ns Hq) as Hp. rewrite is_prefix_refl in Hp. discriminate.
+  - split; [reflexivity|]. split.
+    + intros HI q ns Hq. cbn [s_reg s_fs] in *. destruct (HI q ns Hq) as [Hne (c & Hf)]. split; [exact Hne|]. exists c.
+      rewrite (fs_get_filter _ (fun k => negb (is_prefix_path p k))); [exact Hf | rewrite (Hc q ns Hq); reflexivity].
+    + intros q. unfold view, content_at. cbn [s_reg s_fs]. destruct (reg_get (s_reg st) q) as [ns|] eqn:Hq; [|reflexivity].
+      rewrite (fs_get_filter _ (fun k => negb (is_prefix_path p k))); [reflexivity | rewrite (Hc q ns Hq); reflexivity].
+Qed.
+
+(* histories of exports interleaved with such events *)
+Fixpoint clear_history (st : state) (h : list op) : Prop :=
+  match h with
+  | [] => True
+  | o :: r => (is_export o = true \/ (match o with MkDir _ | MkFile _ _ | Remove _ => True | _ => False end /\ clear_of_records st o)) /\
+              clear_history (fst (ExportSM.step cfg U st o)) r
+  end.
+
+Theorem run_refines_with_obstacles : forall h st st' rs, clear_history st h -> run cfg U st h = (st', rs) ->
+  refines cfg U (fun j q => exists o, In o h /\ op_targets cfg U o j q) st st'.
+Proof.
+  induction h as [|o h IH]; intros st st' rs Hh H; cbn [run] in H; [inversion H; subst; apply refines_refl|].
+  destruct Hh as [Ho Hh]. destruct (ExportSM.step cfg U st o) as [st1 r1] eqn:E1. cbn [fst] in Hh. destruct (run cfg U st1 h) as [st2 rs2] eqn:E2. inversion H; subst.
+  apply (refines_trans cfg U _ st st1 st').
+  - destruct Ho as [Ho|[Hk Hc]].
+    + pose proof (step_refines cfg U Hcwd _ _ _ _ Ho E1) as G. intros HI. destruct (G HI) as [HI' F]. split; [exact HI'|]. intros q.
+      destruct (F q) as (l & R & A). exists l. split; [exact R|]. revert A. apply Forall_impl. intros it (j & Hj & Hcn). exists j. split; [|exact Hcn].
+      exists o. split; [left; reflexivity | exact Hj].
+    + destruct (env_op_views _ _ _ _ Hk Hc E1) as (_ & HIp & Hv). intros HI. split; [exact (HIp HI)|]. intros q. exists []. split; [|constructor].
+      cbn [run_raw]. rewrite (Hv q). reflexivity.
+  - pose proof (IH _ _ _ Hh E2) as G. intros HI. destruct (G HI) as [HI' F]. split; [exact HI'|]. intros q.
+    destruct (F q) as (l & R & A). exists l. split; [exact R|]. revert A. apply Forall_impl. intros it (j & (o' & Ho' & Hj) & Hcn). exists j. split; [|exact Hcn].
+    exists o'. split; [right; exact Ho' | exact Hj].
+Qed.
+
+(* a failed T::export() contributes nothing to any file *)
+Theorem failed_export_views st i st' e : ExportSM.step cfg U st (Export i) = (st', Err e) -> forall q, view st' q = view st q.
+Proof. intros H. destruct (export_failed_frame cfg U Hcwd _ _ _ _ H) as (Hr & _ & Hf). exact (view_same _ _ Hr Hf). Qed.
+End Obstacles.
